@@ -1,5 +1,1 @@
-#include "world.hpp"
-namespace djsim
-{
-bool World::exec_drift_op(const Step&) { return false; }
-}  // namespace djsim
+// (all actors implemented)
